@@ -1,2 +1,155 @@
-(* C06 — statements are added when the engine proofs (see notes/) are closed. *)
-From Parsley Require Import Engine Spec.
+(* C06 — Parse errors point at the furthest failure and render a real line:column.
+   Only statements: each theorem repeats the full statement of a lemma proved elsewhere and is closed by [exact]. *)
+From Coq Require Import String List NArith ZArith Bool.
+From Parsley Require Import Obs Base FileSet FileSetProofs Grammar Engine EngineHarness Errors.
+Import ListNotations.
+Open Scope N_scope.
+
+(* For every trim-free grammar (all other combinators, memoized nonterminals, named or unnamed alternatives), every input and fuel:
+   the error a failing Sentence-rooted parsley.Parse reports lies inside the file and is never beyond a logged failed attempt
+   (a terminal or end-of-input that was tried there and did not match) — or is one of two explicitly listed origins with no
+   attempt behind them: a Name applied to an operand that returned neither node nor error (only possible through pure
+   left-recursion curtailment), or Parse's "a valid input" fallback. *)
+Theorem C06_not_beyond :
+  forall (inp : input) (rules : list pexpr) (fuel : nat) (root : pexpr) (e : perr) (c : ctx),
+  notrim root = true ->
+  forallb notrim rules = true ->
+  parse_top inp rules fuel (sentence root) = Ok (TopErr e c) ->
+  i_offset inp <= epos e /\
+  epos e <= i_offset inp + i_len inp /\
+  ((exists (p : N) (k : cause), In (p, k) (g_fails c) /\ epos e <= p) \/
+   (exists nm : list N, ecause e = CNotFound nm /\ In nm (gnames (root :: rules))) \/
+   e = mk_err (i_offset inp) (CNotFound name_valid_input)).
+Proof. exact @Errors.C06_not_beyond. Qed.
+Print Assumptions C06_not_beyond.
+
+(* The reported expectation is that of a logged failed attempt AT the reported position, or a Name of the grammar, or the fallback. *)
+Theorem C06_expectation_real :
+  forall (inp : input) (rules : list pexpr) (fuel : nat) (root : pexpr) (e : perr) (c : ctx),
+  notrim root = true ->
+  forallb notrim rules = true ->
+  parse_top inp rules fuel (sentence root) = Ok (TopErr e c) ->
+  In (epos e, ecause e) (g_fails c) \/
+  (exists nm : list N, ecause e = CNotFound nm /\ In nm (gnames (root :: rules))) \/
+  e = mk_err (i_offset inp) (CNotFound name_valid_input).
+Proof. exact @Errors.C06_expectation_real. Qed.
+Print Assumptions C06_expectation_real.
+
+(* Exception-free form: when no Name wraps an operand that can return empty-handed (decidable `guarded`) an attempt failed exactly at the reported position. *)
+Theorem C06_guarded :
+  forall (inp : input) (rules : list pexpr) (fuel : nat) (root : pexpr) (e : perr) (c : ctx),
+  notrim root = true ->
+  forallb notrim rules = true ->
+  guarded root = true ->
+  forallb guarded rules = true ->
+  ne root = true ->
+  parse_top inp rules fuel (sentence root) = Ok (TopErr e c) ->
+  i_offset inp <= epos e /\
+  epos e <= i_offset inp + i_len inp /\
+  (In (epos e, ecause e) (g_fails c) \/
+   (exists nm t : list N,
+      ecause e = CNotFound nm /\
+      In nm (gnames (root :: rules)) /\ In (epos e, CNotFound t) (g_fails c))).
+Proof. exact @Errors.C06_guarded. Qed.
+Print Assumptions C06_guarded.
+
+(* For productive grammars (every Memoize derives something; decidable ranking) no logged failed attempt lies beyond the reported position. *)
+Theorem C06_no_attempt_lost_productive :
+  forall (inp : input) (rules : list pexpr) (rk : N -> nat) (fuel : nat)
+    (root : pexpr) (e : perr) (c : ctx),
+  ok4 rules root = true ->
+  forallb (ok4 rules) rules = true ->
+  ranked rules rk root = true ->
+  forallb (ranked rules rk) rules = true ->
+  parse_top inp rules fuel (sentence root) = Ok (TopErr e c) ->
+  forall (q : N) (k : cause), In (q, k) (g_fails c) -> q <= epos e.
+Proof. exact @Errors.C06_no_attempt_lost_productive. Qed.
+Print Assumptions C06_no_attempt_lost_productive.
+
+(* EQUALITY: under productivity and guardedness the reported position equals the furthest failed attempt (naming every
+   Any/Choice is not even needed). *)
+Theorem C06_furthest :
+  forall (inp : input) (rules : list pexpr) (rk : N -> nat) (n fuel : nat)
+    (root : pexpr) (e : perr) (c : ctx),
+  ok4 rules root = true ->
+  forallb (ok4 rules) rules = true ->
+  ranked rules rk root = true ->
+  forallb (ranked rules rk) rules = true ->
+  prodn rules rk n root = true ->
+  guarded root = true ->
+  forallb guarded rules = true ->
+  parse_top inp rules fuel (sentence root) = Ok (TopErr e c) ->
+  (exists k : cause, In (epos e, k) (g_fails c)) /\
+  (forall (q : N) (k : cause), In (q, k) (g_fails c) -> q <= epos e).
+Proof. exact @Errors.C06_furthest. Qed.
+Print Assumptions C06_furthest.
+
+(* The same with the boolean productivity checker. *)
+Theorem C06_furthest_decidable :
+  forall (inp : input) (rules : list pexpr) (fuel : nat) (root : pexpr) (e : perr) (c : ctx),
+  ok4 rules root = true ->
+  forallb (ok4 rules) rules = true ->
+  productive_b rules root = true ->
+  guarded root = true ->
+  forallb guarded rules = true ->
+  parse_top inp rules fuel (sentence root) = Ok (TopErr e c) ->
+  (exists k : cause, In (epos e, k) (g_fails c)) /\
+  (forall (q : N) (k : cause), In (q, k) (g_fails c) -> q <= epos e).
+Proof. exact @Errors.C06_furthest_decidable. Qed.
+Print Assumptions C06_furthest_decidable.
+
+(* The text is "failed to parse the input: <expectation> at <file>:<line>:<column>" with line and column of exactly that position (C11). *)
+Theorem C06_render :
+  forall (data : list N) (offset : N) (rules : list pexpr) (fuel : nat)
+    (root : pexpr) (e : perr) (c : ctx),
+  notrim root = true ->
+  forallb notrim rules = true ->
+  parse_top (eng_input data offset) rules fuel (sentence root) = Ok (TopErr e c) ->
+  spec_position (eng_files data offset) (epos e) = Some (render_pos data offset (epos e)) /\
+  top_text (new_fileset (eng_files data offset)) e =
+  Ok
+    (bytes "failed to parse the input: " ++
+     cause_msg (ecause e) ++ bytes " at " ++ position_string (render_pos data offset (epos e))).
+Proof. exact @Errors.C06_render. Qed.
+Print Assumptions C06_render.
+
+(* Every logged attempt lies inside the file. *)
+Theorem C06_attempts_in_file :
+  forall (inp : input) (rules : list pexpr) (fuel : nat) (root : pexpr) (e : perr) (c : ctx),
+  notrim root = true ->
+  forallb notrim rules = true ->
+  parse_top inp rules fuel (sentence root) = Ok (TopErr e c) ->
+  forall (q : N) (k : cause),
+  In (q, k) (g_fails c) -> i_offset inp <= q <= i_offset inp + i_len inp.
+Proof. exact @Errors.C06_attempts_in_file. Qed.
+Print Assumptions C06_attempts_in_file.
+
+(* FINDING K2 (by vm_compute on the model, reproduced on the real code): with an unproductive rule the reported position can be SHORT of the
+   furthest failed attempt even though every alternative is named. *)
+Theorem C06_furthest_refuted_without_productivity :
+  exists (inp : input) (rules : list pexpr) (root : pexpr) (e : perr)
+  (c : ctx),
+    ok4 rules root = true /\
+    forallb (ok4 rules) rules = true /\
+    guarded root = true /\
+    forallb guarded rules = true /\
+    ne root = true /\
+    named root = true /\
+    forallb named rules = true /\
+    parse_top inp rules 200 (sentence root) = Ok (TopErr e c) /\
+    (exists (q : N) (k : cause), In (q, k) (g_fails c) /\ epos e < q) /\
+    (exists (k : N * N) (r : result),
+       In (k, r) (cache c) /\ reusable (r_lrc r) [] = true /\ r_nodes r = [] /\ r_err r = None).
+Proof. exact @Errors.C06_furthest_refuted_without_productivity. Qed.
+Print Assumptions C06_furthest_refuted_without_productivity.
+
+(* FINDING K2b: Sentence(SeqOf(a, Name(n, &U))) with U -> U b on "abc" reports position 2 although no attempt failed anywhere. *)
+Theorem C06_exception_iii_example :
+  notrim (ex_seq [ex_a; PName [110] (PRef 0)]) = true /\
+  top_view
+    (parse_top (ex_inp [97; 98; 99]) [ex_U] 200
+       (sentence (ex_seq [ex_a; PName [110] (PRef 0)]))) =
+  Some (mk_err 2 (CNotFound [110]), []).
+Proof. exact @Errors.C06_example_exception_iii. Qed.
+Print Assumptions C06_exception_iii_example.
+
